@@ -82,9 +82,6 @@ class CSVTracksBuilder(TracksBuilder):
         if "id" in df.columns and not df["id"].is_unique:
             raise ValueError("The 'id' column must contain unique values")
 
-        # Ensure integer IDs (convert string IDs to integers if needed)
-        if "id" in df.columns and "parent_id" in df.columns:
-            df = _ensure_integer_ids(df)
 
         # For backward compatibility, extend node_name_map with node_features
         # Only add features that should be loaded (recompute=False)
@@ -102,6 +99,10 @@ class CSVTracksBuilder(TracksBuilder):
             if source_col in df.columns and target_key not in new_df_data:
                 new_df_data[target_key] = df[source_col].copy()
         df = pd.DataFrame(new_df_data)
+
+        # Ensure integer IDs (convert string IDs to integers if needed)
+        if "id" in df.columns and "parent_id" in df.columns:
+            df = _ensure_integer_ids(df)
 
         # Convert NaN to None
         df = df.map(lambda x: None if pd.isna(x) else x)
